@@ -84,7 +84,8 @@ def run(ctx):
         path, n, lines = rows_of(ctx, table, tier, workers=(None if table in ("size", "calc") and not ctx.quick else 1))
         out = ctx.driver(b, ["rules-table", table], input_path=path)
         summ = [o for o in out if o.get("summary")][0]
-        if summ["rows"] != n:
+        if summ["rows"] != n and not summ["mismatches"]:
+            # rows that panicked are reported as mismatches and are not counted as evaluated
             ctx.fail("driver evaluated %d of %d rows of table %s" % (summ["rows"], n, table))
         sane = [o for o in out if o.get("specsanity")]
         if sane:
